@@ -364,6 +364,7 @@ _MORE = {
     "C10": "A third of the Checks run on a TB that offers a Context of its own (as *testing.T since Go 1.24).",
     "C11": "Behaviours include failures without a message followed by a skip or raised by a cleanup, and a non-fatal failure in a case "
            "whose body and cleanup both skip / whose cleanups fail and skip in either order.",
+    "C12": "Three quarters of the threshold properties draw other values before and/or after the deciding integer (Bool, short string; byte slice, Int16).",
     "C14": "Workers of the late-cleanup family occasionally signal their failure only after the context was cancelled (while cleanup "
            "functions run); a quarter of the scenarios run the whole script on the T of a Custom generator function; a third of the Checks "
            "use a TB with a Context of its own. Race reports are attributed by access side: a report both of whose accesses lie in harness "
